@@ -157,12 +157,32 @@ def path_env(path: Path, env: dict[str, Term] | None = None, upto: ast.AST | Non
     return env
 
 
-def facts(path: Path, env0: dict[str, Term] | None = None) -> set[tuple]:
+def facts(path: Path, env0: dict[str, Term] | None = None, resolver=None, _depth: int = 0) -> set[tuple]:
     """Atomic facts known at the end of the path: ('eq', frozenset({a,b})), ('ne', ...),
-    ('is', a, b), ('isnot', a, b), ('isinstance', x, classes-term, bool), ('truth', t, bool)."""
+    ('is', a, b), ('isnot', a, b), ('isinstance', x, classes-term, bool), ('truth', t, bool).
+
+    With a ``resolver`` (call node -> (FunctionDef, [argument expressions incl. the receiver]) or None) a call statement to a
+    checking helper contributes the facts that hold on *every* normally-returning path of the helper, with its
+    parameters replaced by the argument terms ("raises unless ...")."""
     out: set[tuple] = set()
     env = dict(env0 or {})
     for ev in path.events:
+        if resolver is not None and _depth < 2 and ev[0] == 'stmt' and isinstance(ev[1], ast.Expr) and isinstance(ev[1].value, ast.Call):
+            hit = resolver(ev[1].value)
+            if hit is not None:
+                callee, args = hit
+                params = [a.arg for a in callee.args.args]
+                if len(args) == len(params):
+                    from .paths import function_paths
+
+                    mapping = {('var', p): term(a, env) for p, a in zip(params, args)}
+                    common = None
+                    for q in function_paths(callee):
+                        if q.exit == 'raise':
+                            continue
+                        fq = {subst(f, mapping) for f in facts(q, None, resolver, _depth + 1)}
+                        common = fq if common is None else (common & fq)
+                    out |= common or set()
         if ev[0] == 'cond':
             for n in ast.walk(ev[1]):
                 if isinstance(n, ast.NamedExpr):
